@@ -9,6 +9,10 @@ use serde::{Deserialize, Serialize};
 pub struct Case {
     pub ops: Vec<Op>,
     pub n_extra: u8,
+    /// > 0: additionally run the history in a traced child process and make up to this many of its system calls
+    /// fail, one per run (see c13::inject_faults)
+    #[serde(default)]
+    pub inject: u16,
 }
 
 pub struct C12;
@@ -19,7 +23,7 @@ impl Prop for C12 {
         "C12"
     }
     fn rule(&self) -> String {
-        "Cases: histories of 0..30 (thorough 0..100) operations biased towards failing stores: resubmissions (duplicate), events resubmitted after their id/address was deleted, older versions at replaceable addresses (refused after the pre-removal scan ran), deletion requests with 1..4 tags mixing own / foreign / absent / malformed 'e' and 'a' targets and addresses whose d is too long for an LMDB key. Oracle: for every store that returns an error, the snapshot before equals the snapshot after (has_event, get_event_by_id bytes, event_is_deleted for every id ever mentioned; naddr_is_deleted_asof and replaceable lookups for every address mentioned; ~25-80 unlimited queries covering every index plan; all ten index entry counts; extra table rows). Non-trivial: a failing store of a kind-5 event with >= 2 tags, or of a replaceable event refused as replaced (i.e. a failure after the transaction already performed effects).".into()
+        "Cases: histories of 0..30 (thorough 0..100) operations biased towards failing stores: resubmissions (duplicate), events resubmitted after their id/address was deleted, older versions at replaceable addresses (refused after the pre-removal scan ran), deletion requests with 1..4 tags mixing own / foreign / absent / malformed 'e' and 'a' targets and addresses whose d is too long for an LMDB key. Oracle: for every store that returns an error, the snapshot before equals the snapshot after (has_event, get_event_by_id bytes, event_is_deleted for every id ever mentioned; naddr_is_deleted_asof and replaceable lookups for every address mentioned; ~25-80 unlimited queries covering every index plan; all ten index entry counts; extra table rows). Fault injection ('or any other' error): one history in 25 (its first 12 operations) is also run in a child process under ptrace, once per chosen system call of the kinds ftruncate / pwrite64 / pwritev / writev / mremap / mmap / msync / fsync / fdatasync / lseek / pread64 made inside a step (up to 24 per history, evenly spread; thorough 60), that one call failing with ENOSPC or EIO; if the interrupted store call then returns an error, the snapshot the child takes from its still open store object must equal the reference snapshot before the call. Non-trivial: a failing store of a kind-5 event with >= 2 tags, or of a replaceable event refused as replaced (i.e. a failure after the transaction already performed effects).".into()
     }
     fn assumptions(&self) -> Vec<String> {
         vec!["event_bytes is not part of the snapshot: a failed store may leave orphan bytes in the event map, which no lookup reaches.".into()]
@@ -47,7 +51,9 @@ impl Prop for C12 {
             kind_weights: [2, 3, 4, 1, 1],
             ..EvCfg::default()
         };
-        (history(w, cfg, tier.pick(30, 100)), 0u8..3).prop_map(|(ops, n_extra)| Case { ops, n_extra }).boxed()
+        (history(w, cfg, tier.pick(30, 100)), 0u8..3, prop_oneof![tier.pick(24, 12) => Just(0u16), 1 => Just(tier.pick(24u16, 60u16))])
+            .prop_map(|(ops, n_extra, inject)| Case { ops, n_extra, inject })
+            .boxed()
     }
     fn label_floors(&self) -> Vec<(&'static str, f64)> {
         vec![("failed-store", 0.5), ("failed-after-effects", 0.15)]
@@ -115,6 +121,18 @@ impl Prop for C12 {
                 }
             }
         }
+        drop(w);
+        if c.inject > 0 && out.fail.is_none() {
+            // "or any other" error: I/O failures injected at system-call level into a child process running the same history
+            let short: Vec<Op> = c.ops.iter().take(12).cloned().collect();
+            crate::props::c13::inject_faults(&short, c.inject as usize, &mut out);
+        }
         out
+    }
+    fn extra_coverage(&self) -> serde_json::Map<String, serde_json::Value> {
+        let mut m = serde_json::Map::new();
+        let _ = m.insert("io_failures_injected".into(), serde_json::json!(crate::props::c13::FAULTS_INJECTED.load(std::sync::atomic::Ordering::SeqCst)));
+        let _ = m.insert("injected_failures_by_syscall_and_outcome".into(), serde_json::json!(crate::props::c13::fault_histogram()));
+        m
     }
 }
